@@ -19,6 +19,8 @@ import (
 	"errors"
 	"runtime"
 	"sync"
+
+	"github.com/bufbuild/buf/private/pkg/verifhook"
 )
 
 var (
@@ -79,6 +81,7 @@ func Parallelize(ctx context.Context, jobs []func(context.Context) error, option
 	}
 	var wg sync.WaitGroup
 	var stop bool
+	var verifJobCount int
 	for _, job := range jobs {
 		if stop {
 			break
@@ -100,8 +103,14 @@ func Parallelize(ctx context.Context, jobs []func(context.Context) error, option
 				addError(ctx.Err())
 			default:
 				job := job
+				verifJobIndex := verifJobCount
+				verifJobCount++
+				verifhook.Point("thread.dispatch")
 				wg.Add(1)
 				go func() {
+					verifhook.Point("thread.start")
+					verifhook.Trace("thread.start", verifJobIndex)
+					defer verifhook.Trace("thread.done", verifJobIndex)
 					if err := job(ctx); err != nil {
 						addError(err)
 						if cancel != nil {
